@@ -44,6 +44,11 @@ func main() {
 
 	total := 0
 	switch domain {
+	case "facts":
+		if err := genFacts(out); err != nil {
+			fmt.Fprintln(os.Stderr, "facts:", err)
+			os.Exit(1)
+		}
 	case "step":
 		total += genStep(out, rng, cnt(3, 40), thorough)
 		if thorough {
